@@ -464,6 +464,9 @@ func Select(arr, idx *Term) *Term {
 		}
 		break
 	}
+	if strings.HasPrefix(arr.Op, "(as const") && len(arr.Args) == 1 {
+		return arr.Args[0]
+	}
 	return App("select", elemSort(arr.Sort), arr, idx)
 }
 
